@@ -229,7 +229,7 @@ def realops_guard():
 
 
 # ------------------------------------------------------------------ lane reductions (Model/VecOps.v)
-VECOPS_EXPECTED_SHA = "d41c6bf1b049dae3"
+VECOPS_EXPECTED_SHA = "9dc6bfecc3f7e72e"
 
 
 def vecops_guard():
@@ -321,6 +321,21 @@ def lane_tie(rng, tier):
                 tasks.append({"kind": "lane", "fn": "batchnorm", "shape": list(sh), "axis": None, "x": [round(rng.uniform(-2, 2), 3) for _ in range(int(np.prod(sh)))],
                               "gamma": [round(rng.uniform(0.5, 2), 3) for _ in range(C)] if gm else None, "beta": [round(rng.uniform(-1, 1), 3) for _ in range(C)] if bt else None,
                               "eps": rng.choice([1e-3, 0.1, 1.0]), "gseed": rng.randrange(10 ** 6)})
+        for N, C in ((1, 3), (3, 4), (4, 2)):
+            for hinge in (1.0, 0.0, 0.5, 2.5):
+                tasks.append({"kind": "lane", "fn": "multiclass_hinge", "shape": [N, C], "axis": 1, "x": [round(rng.uniform(-2, 2), 3) + 0.00037 * k for k in range(N * C)],
+                              "labels": [rng.randrange(C) for _ in range(N)], "hinge": hinge, "gseed": rng.randrange(10 ** 6)})
+            for al, ga in ((1.0, 0.0), (0.5, 2.0), (2.0, 0.5), (1.0, 1.0), (0.25, 3.0)):
+                probs = np.array([rng.uniform(0.1, 1.0) for _ in range(N * C)]).reshape(N, C)
+                probs = (probs / probs.sum(axis=1, keepdims=True)).round(6)
+                tasks.append({"kind": "lane", "fn": "focal_loss", "shape": [N, C], "axis": 1, "x": probs.ravel().tolist(), "labels": [rng.randrange(C) for _ in range(N)],
+                              "alpha": al, "gamma": ga, "gseed": rng.randrange(10 ** 6)})
+        for sh in ((4,), (3, 2)):
+            n = int(np.prod(sh))
+            for margin in (0.0, 0.5, 2.0):
+                for yv in (1, -1, [rng.choice([1, -1]) for _ in range(sh[0])]):
+                    tasks.append({"kind": "lane", "fn": "margin_ranking_loss", "shape": list(sh), "axis": None, "x": [round(rng.uniform(-2, 2), 3) for _ in range(n)],
+                                  "x2": [round(rng.uniform(-2, 2), 3) + 0.0123 for _ in range(n)], "y": yv, "margin": margin, "gseed": rng.randrange(10 ** 6)})
         for N, C in ((1, 3), (3, 4), (5, 2)):
             tasks.append({"kind": "lane", "fn": "softmax_crossentropy", "shape": [N, C], "axis": 1, "x": [round(rng.uniform(-2, 2), 3) for _ in range(N * C)],
                           "labels": [rng.randrange(C) for _ in range(N)], "gseed": rng.randrange(10 ** 6)})
@@ -332,8 +347,10 @@ def lane_tie(rng, tier):
             oshape = x.shape
         elif t["fn"] == "norm":
             oshape = np.linalg.norm(x, ord=t.get("ord"), axis=ax, keepdims=t.get("keepdims", False)).shape
-        elif t["fn"] == "softmax_crossentropy":
+        elif t["fn"] in ("softmax_crossentropy", "multiclass_hinge", "margin_ranking_loss"):
             oshape = ()
+        elif t["fn"] == "focal_loss":
+            oshape = (x.shape[0],)
         else:
             oshape = np.sum(x, axis=ax, keepdims=t.get("keepdims", False)).shape
         rs = np.random.RandomState(t["gseed"])
@@ -351,6 +368,37 @@ def lane_tie(rng, tier):
         x = np.array(t["x"], dtype=np.float64).reshape(t["shape"])
         nd = x.ndim
         ax = t["axis"]
+        if t["fn"] in ("multiclass_hinge", "focal_loss", "margin_ranking_loss"):
+            G = np.array(r["grad"]).reshape(x.shape)
+            g = np.array(t["g"], dtype=np.float64)
+            okk = True
+            if t["fn"] == "multiclass_hinge":
+                N = x.shape[0]
+                for k in range(N):
+                    n_lanes += 1
+                    y, h, c = t["labels"][k], t["hinge"], 1.0 / N
+                    marg = x[k] - x[k][y] + h
+                    stp = np.where((marg > 0) & (np.arange(x.shape[1]) != y), 1.0, 0.0)
+                    want = g.reshape(-1)[0] * c * np.where(np.arange(x.shape[1]) == y, -stp.sum(), stp)
+                    okk = okk and same(want, G[k], 1e-10, 1e-12)[0]
+            elif t["fn"] == "focal_loss":
+                for k in range(x.shape[0]):
+                    n_lanes += 1
+                    y, al, ga = t["labels"][k], t["alpha"], t["gamma"]
+                    p = x[k][y]
+                    d = -(al / p) if ga == 0 else -al * ((1 - p) ** ga / p - ga * (1 - p) ** (ga - 1) * np.log(p))
+                    want = np.where(np.arange(x.shape[1]) == y, g[k] * d, 0.0)
+                    okk = okk and same(want, G[k], 1e-10, 1e-12)[0]
+            else:
+                n_lanes += x.size
+                x2 = np.array(t["x2"], dtype=np.float64).reshape(x.shape)
+                yv = np.asarray(t["y"], dtype=np.float64)
+                yy = np.broadcast_to(yv.reshape((-1,) + (1,) * (x.ndim - 1)) if yv.ndim else yv, x.shape)
+                stp = np.where(t["margin"] - yy * (x - x2) > 0, 1.0, 0.0) / x.size
+                okk = same(g.reshape(-1)[0] * (-yy) * stp, G, 1e-10, 1e-12)[0] and same(g.reshape(-1)[0] * yy * stp, np.array(r["grad2"]).reshape(x.shape), 1e-10, 1e-12)[0]
+            if not okk:
+                bad.append({"kind": "%s: the gradients differ from Model/VecOps.v's formulas (hinge_bwd / focal_bwd / margin_bwd_a,b)" % t["fn"], "task": t})
+            continue
         if t["fn"] == "batchnorm":
             # lanes = channels (axis 1); every other axis is reduced
             C = x.shape[1]
